@@ -41,6 +41,7 @@ RULE += " Account dictionaries carry real aggregates: every fork extra (and the 
 ASSUMPTIONS = ['proofs are built by the reference model (prune = replace a subtree by a pruned-branch cell carrying its level-wise hashes and depths)']
 NOT_ASSERTED = ['check_shard_proof (not named by the property; needs a full masterchain state)',
                 'mutations that leave the proof valid (e.g. swapping two identical references) are not generated']
+RULE += " Sixth session: pruned-branch cells damaged in their raw data (every bit of the type and mask bytes, missing depth field, trailing data; also built under the old type, and hidden below a library cell with a reference) through check_proof and the header check; the forger's bag (a changed cell and the ordinary cells above it stored with the ORIGINAL cells' hashes and depths); a claimed account state that is the real cell with one sub-tree pruned."
 
 
 def BOUNDS(tier):
